@@ -482,7 +482,10 @@ class StepHash:
             hw.update(value)
         hw.update("__env_overrides__")
         for name, value in sorted(env_overrides.items()):
-            hw.update(name)
+            # The name is added as bytes, not as str: after a tracked variable that happens
+            # to be called "__env_overrides__", a str word could be read as that variable's
+            # value, which made two different configurations share a digest.
+            hw.update(name.encode())
             hw.update(value)
         inp_info = (
             InpInfo(dict(inp_hashes), dict(env_values), dict(env_overrides)) if explained else None
